@@ -22,6 +22,9 @@ pub enum Op {
     AddBusy { n: u16, pool_sel: u8, wallet_every: u8 },
     /// tell the wallet the chain tip (model tip minus `behind`, clipped)
     UpdateTip { behind: u8 },
+    /// `truncate_to_chain_state(true chain state at (max scanned or tip) - depth)`: a precise truncation that does not
+    /// depend on a retained checkpoint (the wallet inserts the supplied frontiers); `reorg` as for `Truncate`
+    TruncateToChainState { depth: u8, reorg: bool },
     /// append one block that mines again (same txid and bytes, new place in the trees) up to `sels.len()` wallet
     /// transactions that an earlier reorganisation removed from the chain; nothing if there is none
     ReMine { sels: Vec<u32> },
@@ -58,6 +61,8 @@ pub fn arb_op_opts(na: u8, nf: u8, iw: bool, long: bool, remine: bool) -> impl S
         2 => (any::<u32>(), any::<bool>()).prop_map(|(which, past)| Op::ExpiryProbe { which, past }),
         // last, so that shrinking (which moves towards earlier alternatives) never introduces it when its weight is 0
         if remine { 2 } else { 0 } => proptest::collection::vec(any::<u32>(), 1..4).prop_map(|sels| Op::ReMine { sels }),
+        // shallow only: a truncation far below the tip runs into the known finding `chain-state-truncation-checkpoint-pruned-at-once` (C06)
+        if remine { 2 } else { 0 } => (0u8..10, any::<bool>()).prop_map(|(depth, reorg)| Op::TruncateToChainState { depth, reorg }),
     ]
 }
 
@@ -174,6 +179,8 @@ pub struct Flags {
     pub expiry_probes: u32,
     pub subtree_roots_put: u32,
     pub remined_txs: u32,
+    pub chain_state_truncations: u32,
+    pub chain_state_truncations_below_request: u32,
 }
 
 /// maximal unscanned ranges [start, end] on the current branch
@@ -249,6 +256,9 @@ pub fn splits_frontier_ommer(t: u32, s: u32) -> bool {
 
 /// Signature used for the known shardtree stale-annotation finding (see known_findings.json, C06).
 pub const SIG_TREE_CONFLICT: &str = "tree-conflict-after-rewind";
+/// Signature used for the known finding that `truncate_to_chain_state` keeps tree checkpoints above its target when
+/// no scanned block is left above the target after its first phase (see known_findings.json, C06).
+pub const SIG_STALE_CHECKPOINT: &str = "chain-state-truncation-keeps-checkpoints";
 /// Signature used for the known stale-subtree-root finding (see known_findings.json, C06).
 pub const SIG_STALE_SUBTREE_ROOT: &str = "stale-subtree-root-after-reorg";
 
@@ -280,6 +290,37 @@ impl Hist {
 
     pub fn max_scanned(&self) -> Option<u32> {
         self.ledger.scanned.iter().map(|b| self.chain.blocks[*b].height).max()
+    }
+
+    /// Model side of a successful truncation of the wallet to `got` (with or without a reorganisation afterwards).
+    fn after_truncate(&mut self, got: u32, reorg: bool) {
+        let base = self.base();
+        let chain = &self.chain;
+        let removed_wallet_tx = self.ledger.scanned.iter().any(|b| {
+            let blk = &chain.blocks[*b];
+            blk.height > got && blk.txs.iter().any(|t| t.recv.iter().any(|n| matches!(chain.notes[*n].who, Who::Wallet(_))) || t.spends.iter().any(|s| s.note.is_some()))
+        });
+        if removed_wallet_tx {
+            self.flags.rewind_removed_wallet_tx = true;
+        }
+        self.flags.truncations += 1;
+        // a re-mined transaction is not orphaned a second time (its first observation by the wallet would then depend
+        // on which of its copies were relevant when scanned): such a rewind keeps the chain
+        let reorg = reorg && !self.chain.has_remined_above(got);
+        if reorg && got < self.chain.tip_height() {
+            let t = self.chain.sizes_at(got.max(base));
+            if self.frontier_sizes.iter().any(|s| (0..3).any(|p| splits_frontier_ommer(t[p], s[p]))) {
+                self.tainted_stale_annotation = true;
+            }
+            if self.roots_given.values().any(|(end, _)| *end > got) {
+                self.tainted_stale_subtree_root = true;
+            }
+        }
+        self.ledger.truncate(&self.chain, got);
+        if reorg {
+            self.chain.fork_at(got);
+        }
+        self.max_scanned_start = self.max_scanned();
     }
 
     /// One sync-round start as documented in `data_api::chain`: (once the wallet uses subtree roots) the roots of every
@@ -479,37 +520,51 @@ impl Hist {
                 match tr {
                     Ok(got) => {
                         vensure!(got <= h, "truncate-above-request", "{step}: truncate_to_height({h}) returned {got}");
-                        let chain = &self.chain;
-                        let removed_wallet_tx = self.ledger.scanned.iter().any(|b| {
-                            let blk = &chain.blocks[*b];
-                            blk.height > got && blk.txs.iter().any(|t| t.recv.iter().any(|n| matches!(chain.notes[*n].who, Who::Wallet(_))) || t.spends.iter().any(|s| s.note.is_some()))
-                        });
-                        if removed_wallet_tx {
-                            self.flags.rewind_removed_wallet_tx = true;
-                        }
-                        self.flags.truncations += 1;
-                        // a re-mined transaction is not orphaned a second time (its first observation by the wallet
-                        // would then depend on which of its copies were relevant when scanned): such a rewind keeps
-                        // the chain
-                        let reorg = &(*reorg && !self.chain.has_remined_above(got));
-                        if *reorg && got < self.chain.tip_height() {
-                            let t = self.chain.sizes_at(got.max(base));
-                            if self.frontier_sizes.iter().any(|s| (0..3).any(|p| splits_frontier_ommer(t[p], s[p]))) {
-                                self.tainted_stale_annotation = true;
-                            }
-                            if self.roots_given.values().any(|(end, _)| *end > got) {
-                                self.tainted_stale_subtree_root = true;
-                            }
-                        }
-                        self.ledger.truncate(&self.chain, got);
-                        if *reorg {
-                            self.chain.fork_at(got);
-                        }
-                        self.max_scanned_start = self.max_scanned();
+                        self.after_truncate(got, *reorg);
                     }
                     Err(_) => {
                         // documented refusals (RequestedRewindInvalid etc.): a no-op for the model
                         self.flags.truncate_refused += 1;
+                    }
+                }
+            }
+            Op::TruncateToChainState { depth, reorg } => {
+                let top = self.max_scanned().unwrap_or(self.chain.tip_height()).max(base);
+                let h = top.saturating_sub(*depth as u32).max(base);
+                let trees_cut = self.max_scanned().is_some_and(|m| m > h);
+                match self.w.truncate_to_chain_state(self.chain.state_at(h).clone()) {
+                    Ok(()) => {
+                        if trees_cut {
+                            // the wallet inserts the supplied frontiers as a checkpoint at `h`
+                            self.frontier_sizes.push(self.chain.sizes_at(h));
+                        }
+                        self.flags.chain_state_truncations += 1;
+                        // The call reports no achieved height. When no retained checkpoint at or below `h` belongs to
+                        // a scanned block (sparse checkpoints: long runs of blocks without commitments) the wallet first
+                        // drops back to its oldest checkpoint, i.e. below `h`; like a client, the model learns the
+                        // achieved height from `block_max_scanned` (counted; DESIGN.md 9.4).
+                        let got = match self.w.block_max_scanned() {
+                            Some(m) => m.min(h).max(base),
+                            None => base,
+                        };
+                        if trees_cut && got < h && self.ledger.scanned.iter().any(|b| { let x = self.chain.blocks[*b].height; x > got && x <= h }) {
+                            self.flags.chain_state_truncations_below_request += 1;
+                        }
+                        // Known finding (C06): the trees keep checkpoints above the truncation height. It only matters
+                        // when the chain above is then replaced; the history stops at this exact trigger.
+                        let stale_cp = self.w.max_checkpoint_height().filter(|m| *m > got);
+                        self.after_truncate(got, *reorg);
+                        if let (Some(m), true) = (stale_cp, *reorg) {
+                            return Err(Fail::new(
+                                SIG_STALE_CHECKPOINT,
+                                format!("{step}: truncate_to_chain_state({h}) returned Ok and the wallet's highest scanned block is now {:?}, but its note commitment trees still hold a checkpoint at height {m}", self.w.block_max_scanned()),
+                            ));
+                        }
+                    }
+                    Err(e) => {
+                        // the known shardtree finding also makes the frontier insertion fail once its trigger was hit
+                        let sig = if self.tainted_stale_annotation && e.contains("Conflict") { SIG_TREE_CONFLICT } else { "truncate-to-chain-state-failed" };
+                        return Err(Fail::new(sig, format!("{step}: truncate_to_chain_state({h}) failed: {e}")));
                     }
                 }
             }
